@@ -25,7 +25,7 @@ from . import follow, features
 
 LEVEL = "model_checking"
 RULE = (
-    "BFS to closure on the sync engine of every TREE(N) universal machine (those holding a parallel state also with keys renamed so that document order is the reverse of id order), irregular larger trees, nested-parallel completion skeletons with an onDone on every eligible state, FOLLOW machine and FEATURE machine "
+    "BFS to closure on the sync engine of every TREE(N) universal machine (those holding a parallel state, up to 4 states, also with keys renamed so that document order is the reverse of id order), irregular larger trees, nested-parallel completion skeletons with an onDone on every eligible state, FOLLOW machine and FEATURE machine "
     "(assign/raise/choose/pure/enqueueActions/guards/output/sync services; self-enqueueing pure / choose / enqueueActions expansion of natural depth 3 and unbounded - cut by the expansion-depth guard); every step is replayed on the "
     "async engine and through initial_transition/transition and compared (configuration, context, status, "
     "output, ordered action list with triggering event type+payload); distinct_nontrivial = distinct canonical "
@@ -50,7 +50,7 @@ def units(tier: str) -> List[Any]:
     us += [("tree", t) for t in F.trees_upto(n)] + [("tree", t) for t in F.par_skeletons(tier)]
     # the same machines with keys named so that document order is the reverse of id order (exit / entry order across
     # regions must follow the document, identically on every engine): every tree holding a parallel state
-    us += [("tree-rev", t) for t in list(F.trees_upto(n)) + F.par_skeletons(tier) if "P" in F.tree_kinds(t)]
+    us += [("tree-rev", t) for t in list(F.trees_upto(min(n, 4))) + F.par_skeletons(tier) if "P" in F.tree_kinds(t)]
     # completion through nested parallel / compound states with an onDone on every eligible state (the done.state
     # bubbling code exists once per engine)
     deep = ("C", (("A", ()), ("C", (("A", ()), ("F", ())))))
